@@ -369,12 +369,25 @@ fn trim_whitespace(tokens: &[PreprocessToken]) -> &[PreprocessToken] {
     trim_whitespace_end(trim_whitespace_start(tokens))
 }
 
+/// Remove whitespace, comments and endlines from the start of a token stream
+/// The invocation of a function-like macro may continue over several lines
+fn trim_whitespace_and_endlines_start(mut tokens: &[PreprocessToken]) -> &[PreprocessToken] {
+    while let Some((PreprocessToken(tok, _), rest)) = tokens.split_first() {
+        if tok.is_whitespace() {
+            tokens = rest;
+        } else {
+            break;
+        }
+    }
+    tokens
+}
+
 fn split_macro_args<'stream>(
     macro_name: &str,
     remaining: &'stream [PreprocessToken],
 ) -> Result<(&'stream [PreprocessToken], Vec<&'stream [PreprocessToken]>), PreprocessError> {
     // Consume the starting bracket
-    let remaining = trim_whitespace_start(remaining);
+    let remaining = trim_whitespace_and_endlines_start(remaining);
     let mut remaining = if let [PreprocessToken(Token::LeftParen, _), rest @ ..] = remaining {
         rest
     } else {
@@ -524,7 +537,9 @@ fn apply_single_macro(
                 remaining = rest;
 
                 if macro_def.num_params == 0 {
-                    if !(args.len() == 1 && args[0].is_empty()) {
+                    // The empty argument list may still hold a line break
+                    if !(args.len() == 1 && trim_whitespace_and_endlines_start(args[0]).is_empty())
+                    {
                         return Err(PreprocessError::MacroExpectsDifferentNumberOfArguments);
                     }
                 } else if args.len() as u64 != macro_def.num_params {
@@ -772,7 +787,7 @@ fn find_single_macro(
 
                     // Check we have the start of function parameters
                     if macro_def.is_function {
-                        let trimmed = trim_whitespace_start(&tokens[i + 1..]);
+                        let trimmed = trim_whitespace_and_endlines_start(&tokens[i + 1..]);
                         activate_pos = tokens.len() - trimmed.len();
                         let [PreprocessToken(Token::LeftParen, _), ..] = trimmed else {
                             continue;
